@@ -38,6 +38,7 @@ AUTOMUT_TRIAGE = [
 
 def run(chk):
     repo = chk.repo
+    cm.schema(chk, repo, "C02")
     chk.rule("C02.D1-D2", "every array/constant/function/dictionary overload of _as_array returns shape (*mesh.n, nvdim); "
                           "_array is written only by the array setter through _as_array(val, self.mesh, self.nvdim); "
                           "update_field_values assigns through that setter")
